@@ -40,6 +40,7 @@ SPEC = dict(
                  MAN('manual_c_ad', 0, 1, 1),
                  MAN('manual_c_a_toakafa', 1, 1, 0),
                  MAN('manual_c_d_toakafa', 1, 0, 1),
+                 I('msg_same_decision_twice', 'h_msg', shape(0, 1, 0) | (1 << 10), 0, 'as msg_1o_t, but two senders may have postponed the same decision (same key, same direction)', known_finding='same-decision-postponed-twice'),
                  # thorough: the remaining shape / policy combinations
                  MSG('msg_1o_t_toakafa', 1, 0, 1, 0, tiers=T), MSG('msg_1o_d', 0, 0, 0, 1, tiers=T), MSG('msg_1o_td', 0, 0, 1, 1, tiers=T),
                  MSG('msg_2o_t_d_toakafa', 1, 1, 1, 0, 0, 1, tiers=T), MSG('msg_2o_d_t', 0, 1, 0, 1, 1, 0, tiers=T), MSG('msg_2o_t_t', 0, 1, 1, 0, 1, 0, tiers=T),
@@ -47,6 +48,11 @@ SPEC = dict(
                  MSG('msg_2o_td_t_toakafa', 1, 1, 1, 1, 1, 0, npre=1, tiers=T),
                  MAN('manual_c_ad_toakafa', 1, 1, 1, tiers=T), MAN('manual_c_a', 0, 1, 0, tiers=T), MAN('manual_c_d', 0, 0, 1, tiers=T),
              ]),
+        # thorough only: larger tables (postponed-decision table and hash containers 6 entries) so that the largest message shape
+        # runs from a pre-state with 2 postponed decisions
+        dict(name='atm6', harness='h.cpp', tus=TUS, models=MODELS, shadow_task=True, cand=CAND, cxxdefs={'PCAP': 6, 'MH_CAP': 6},
+             instances=[MSG('msg6_2o_td_td', 0, 1, 1, 1, 1, 1, npre=2, tiers=T, unwind=7, timeout_s=600, mem_gb=6),
+                        MSG('msg6_2o_td_td_toakafa', 1, 1, 1, 1, 1, 1, npre=2, tiers=T, unwind=7, timeout_s=600, mem_gb=6)]),
     ],
     bounds=[
         'single steps from an arbitrary valid pre-state (no histories): one received trust message or one manual decision, checked against a reference model of XEP-0450 written in the harness',
@@ -55,7 +61,7 @@ SPEC = dict(
         'message shape fixed per instance: 1 or 2 key owners with <= 1 trusted and <= 1 distrusted key each (values symbolic); manual decision: <= 1 key to authenticate and <= 1 key to distrust',
         'security policy fixed per instance: none or TOAKAFA',
         'cascade of postponed decisions: up to 3 nested authenticate rounds (2 pre-state entries can fire one after the other); real-code loops and recursion unwound 5 times with unwinding assertions',
-        'container capacities: hash containers 4 entries, lists 6, postponed-decision table 4 (exceeding one is flagged inconclusive, never silently dropped)',
+        'container capacities: hash containers 4 entries, lists 6, postponed-decision table 4 (exceeding one is flagged inconclusive, never silently dropped); thorough group atm6: hash containers and postponed-decision table 6 entries, unwind 7 (largest message shape from a pre-state with 2 postponed decisions)',
     ],
     assumptions=[
         'the trust storage INTERFACE (QXmppTrustStorage / QXmppAtmTrustStorage) is a model (class Store in h.cpp) written from the documented contract of QXmppTrustStorage.cpp / QXmppAtmTrustStorage.cpp: array-backed over the universe, every call answers with an already finished task; the behaviour of the real memory storages is covered by the repo tests tst_qxmpptrustmemorystorage / tst_qxmppatmtrustmemorystorage and is NOT re-checked here; the encryption namespace argument is ignored (one protocol); setTrustLevel reports no modified keys (only the trustLevelsChanged signal would use them)',
